@@ -82,6 +82,17 @@ def impl(case):
             res["rescan_wide"] = ["".join("1" if v else "0" for v in row) for row in wide[:ny, :nx].tolist()]
         except Exception as e:
             res["rescan_err"] = C.exc_enum(e)
+        # whole-number vertices handed over as an integer array (what np.round(...).astype(int) of a catalogue gives): the same fill, and
+        # the caller's array is theirs - it is not moved
+        if all(float(x) == int(x) and float(y) == int(y) for x, y in case["verts"]):
+            try:
+                arr = np.array([[int(x), int(y)] for x, y in case["verts"]], dtype=int)
+                keep = arr.copy()
+                o1 = region.Polygon(1, arr).scan(np.zeros((ny, nx), dtype=int))
+                o2 = region.Polygon(1, arr).scan(np.zeros((ny, nx), dtype=int))
+                res["int_array"] = {"same": bool(np.array_equal(o1, out) and np.array_equal(o2, out)), "caller_array_kept": bool(np.array_equal(arr, keep))}
+            except Exception as e:
+                res["int_array"] = {"err": C.exc_enum(e) + ":" + str(e)[:80]}
         # metamorphic: larger canvas translated so that everything is non-negative
         pad = case.get("pad", [3, 2, 4, 1])  # left, bottom, right, top
         try:
@@ -180,6 +191,18 @@ def _strict_inside(R, px, py):
     return cnt % 2 == 1
 
 
+def _oracle_int_array(res):
+    ia = res.get("int_array")
+    if ia is None:
+        return []
+    if "err" in ia:
+        return [("int_array", "whole-number vertices given as an integer array: %s" % ia["err"])]
+    if not ia["same"] or not ia["caller_array_kept"]:
+        return [("int_array", "whole-number vertices given as an integer array: same fill (also the second time) %s, the caller's array left as it was %s" %
+                 (ia["same"], ia["caller_array_kept"]))]
+    return []
+
+
 def _oracle_scan(verts, ny, nx, res):
     out = []
     mask = res["mask"]
@@ -231,7 +254,7 @@ def oracle(case, res):
             return [("raise", "Polygon raised %s on a valid polygon" % res["err"])]
         return []
     if case["kind"] == "scan":
-        return _oracle_scan(case["verts"], case["ny"], case["nx"], res)
+        return _oracle_scan(case["verts"], case["ny"], case["nx"], res) + _oracle_int_array(res)
     out = []
     img, singles, order = res["img"], res["singles"], res["order"]
     for r in range(case["ny"]):
